@@ -241,6 +241,26 @@ def shapes_for(name, tier, alias=None):
                             out.append(s2)
                     else:
                         out.append(sh)
+    # tall shapes: limb counts far beyond the small box (N = 2 keeps them cheap); they expose bounds that only bite for long
+    # vectors (clamped loop starts, fixed-size temporaries)
+    tall = [0, 33, 70] if quick else [0, 7, 33, 70, 200]
+    if size_params and not any(p in ('nrows', 'ncols') for p in size_params):
+        N = 2
+        for combo in itertools.product(*[[s for s in tall if s >= mins.get(sp, 0)] for sp in size_params]):
+            sh = dict(zip(size_params, combo))
+            sh['N'] = N
+            for sp in stride_params:
+                sh[sp] = N + 1
+            for kv in itertools.product(*[rng.get(kp, [1]) for kp in ks]):
+                s2 = dict(sh)
+                s2.update(dict(zip(ks, kv)))
+                if range_params:
+                    for (b, e, st) in [(0, 70, 1), (3, 70, 2), (1, 200, 3)]:
+                        s3 = dict(s2)
+                        s3['a_range_begin'], s3['a_range_xend'], s3['a_range_step'] = b, e, st
+                        out.append(s3)
+                else:
+                    out.append(s2)
     if alias:
         o, i = alias
         res = []
@@ -282,7 +302,12 @@ def check_run(run, ordered=False):
     wr_all = {}
     for e in run.events:
         if e.kind == 'X':
-            add('unknown-access', e.note or 'unmodelled access', e.loc)
+            if e.note and e.note.startswith('alignment-dependent'):
+                add('alignment-dependent-path', e.note, e.loc)
+            elif e.note and e.note.startswith('narrow-overflow'):
+                add('narrow-overflow', e.note, e.loc)
+            else:
+                add('unknown-access', e.note or 'unmodelled access', e.loc)
             continue
         if e.kind in ('A',):
             continue
@@ -350,8 +375,9 @@ def check_run(run, ordered=False):
             bad = RG.subtract(iv, allowed)
             if bad:
                 add('write-outside-declared-extent',
-                    'writes bytes %s of `%s` (declared %s)' % (_fmt(bad), '/'.join(b.name for b in wb), _fmt(allowed)), e.loc)
-            if not e.may:
+                    'writes bytes %s of `%s` (declared %s)%s' % (_fmt(bad), '/'.join(b.name for b in wb), _fmt(allowed),
+                                                                 ' - pointer rounded up to an alignment the caller buffer need not have' if getattr(e, 'slack', 0) else ''), e.loc)
+            if not e.may and not getattr(e, 'slack', 0):
                 wr_all[id(o)] = RG.normalize(wr_all.get(id(o), []) + iv)
             if ordered:
                 written[id(o)] = RG.normalize(written.get(id(o), []) + iv)
